@@ -306,13 +306,13 @@ def analyse(eff, key):
 def run(chk):
     eff = Effects.get(chk.repo)
     eff.compute_writes(scratch=set(SCRATCH))
-    r11a(chk, eff)
-    r11b(chk, eff)
-    r11c(chk)
+    chk.attempt(r11a, chk, eff)
+    chk.attempt(r11b, chk, eff)
+    chk.attempt(r11c, chk)
     from .c15 import eval_delete_rule
 
     chk.rule('R11.d', 'a refused deleteRule changes nothing, decided by evaluation: CSSStyleSheet.deleteRule is evaluated over a model sheet for every index (negative ones included), rule objects and foreign objects (shared with R15.b)')
-    eval_delete_rule(chk, 'R11.d')
+    chk.attempt(eval_delete_rule, chk, 'R11.d')
 
 
 def r11a(chk, eff, rid='R11.a'):
